@@ -650,14 +650,58 @@ class State:
 
     # -------------------------------------------------- corpus
     def corpus(self):
+        """corpus/C17/*: '<case line> => <expected fields>' — witnesses of repaired defects, run first."""
+        ck = self.ck
         d = os.path.join(vlib.VERIF, "corpus", "C17")
-        self.corpus_lines = []
+        entries = []
         if os.path.isdir(d):
             for fn in sorted(os.listdir(d)):
                 for l in open(os.path.join(d, fn)):
                     l = l.strip()
-                    if l and not l.startswith("#"):
-                        self.corpus_lines.append(l)
+                    if l and not l.startswith("#") and "=>" in l:
+                        a, b = l.split("=>")
+                        entries.append((a.strip(), b.strip()))
+        if not entries:
+            return
+        lines = ["c%d %s" % (i, a) for i, (a, b) in enumerate(entries)]
+        impl, model = self.both(lines, resilient=True)
+        for i, (a, exp) in enumerate(entries):
+            if i >= len(impl) or i >= len(model):
+                break
+            ck.count("corpus")
+            ck.case(a, True)
+            gi, mo = fields(impl[i]), fields(model[i])
+            bad = None
+            for tok in exp.split():
+                k, want = tok.split(":", 1)
+                got = gi.get(k)
+                if got is None:
+                    bad = (k, want, impl[i][:120])
+                elif want == "*":
+                    continue
+                elif want == "err":
+                    if not got.startswith("err:"):
+                        bad = (k, want, got)
+                elif got != want:
+                    bad = (k, want, got)
+                if bad:
+                    break
+            if bad:
+                self.s_violation("corpus witness of a repaired defect fails again: %s (field %s: expected %s, got %s)" % (a, bad[0], bad[1], bad[2]),
+                                 {"kind": "Go!=S", "engine": "pack", "line": lines[i], "expected": exp, "impl": impl[i], "model": model[i]})
+            # Go vs IM on the same line
+            same = True
+            for k in ("P", "U", "S", "L", "V"):
+                if k in gi or k in mo:
+                    g = gi.get(k, "?")
+                    g = go_class(g) if g.startswith("err:") else g
+                    m = norm_model(mo.get(k, "?"))
+                    if k == "V" and gi.get("L") != "K":
+                        continue
+                    if g != m:
+                        same = False
+            if not same:
+                self.im_difference(lines[i], impl[i], model[i])
 
     # -------------------------------------------------- pack / unpack / packsize
     def pack_cases(self, n):
@@ -731,7 +775,7 @@ class State:
                 self.s_violation("string.%s contradicts the manual: expected %s, got %s" % sfail,
                                  {"kind": "Go!=S", "engine": "pack", "line": line, "format": fmtb.decode("latin-1"),
                                   "values": [repr(v) for v in values], "expected": sfail[1], "impl": impl, "model": model,
-                                  "theorems": ["C17_unpack_pack", "C17_packsize_agrees"]})
+                                  "theorems": ["C17_unpack_pack_partial", "C17_int_roundtrip", "C17_uint_roundtrip"]})
         # ---- Go vs IM
         if "EUnmodelled" in mP or "EUnmodelled" in mU:
             ck.count("model:unmodelled-coercion")
@@ -842,18 +886,10 @@ class State:
             nontrivial = key not in self.err_seen
             self.err_seen.add(key)
             ck.case(line.split(" ", 1)[1], nontrivial)
-            if mU == "bigalloc" and (gU in ("died", "err:EUnexpectedPackEnd", "err:EEOF")):
-                # host-dependent: the announced length is allocated before the input is checked
-                if gU == "died" and self.known("C17-unpack-alloc-before-check"):
-                    ck.count("known:C17-unpack-alloc-before-check")
-                continue
             if gU == "panic":
-                if mU == "panic" and self.known("C17-unpack-alloc-before-check"):
-                    ck.count("known:C17-unpack-alloc-before-check")
-                    continue
                 self.s_violation("string.unpack panics the Go runtime",
                                  {"kind": "Go!=S", "engine": "pack", "line": line, "impl": impl[i], "model": model[i],
-                                  "theorems": ["C17_unpack_no_panic_partial"]})
+                                  "theorems": []})
                 continue
             same = gU.startswith("err:") if mU == "err:EOverflow" else (gU == mU)
             if not same:
@@ -896,7 +932,7 @@ class State:
                     self.s_violation("load('return '..string.format('%%q', s))() does not give s back (s = %r)" % s,
                                      {"kind": "Go!=S", "engine": "pack", "line": lines[i], "literal": lit.decode("latin-1"),
                                       "impl": impl[i], "model": model[i], "manual_reading": repr(ref),
-                                      "theorems": ["C17_quote_load_string_refuted"]})
+                                      "theorems": ["C17_quote_load_former_witness"]})
             same = gi.get("Q") == mo.get("Q") and gi.get("L") == mo.get("L") and (gi.get("L") != "K" or gi.get("V") == mo.get("V"))
             if not same:
                 self.im_difference(lines[i], impl[i], model[i])
@@ -1009,8 +1045,8 @@ class State:
             ck.violation("implementation no longer matches the Coq model Pack/Model.v (Go≈IM/pack): %d differences; "
                          "no property-level failure found" % self.im_diff,
                          dict(self.first_im, kind="Go!=IM", correspondence="Go≈IM/pack",
-                              theorems_no_longer_about_this_code=["C17_unpack_pack", "C17_packsize_agrees",
-                                                                  "C17_malformed_format_is_error", "C17_unpack_no_panic_partial"]),
+                              theorems_no_longer_about_this_code=["C17_unpack_pack_partial", "C17_int_roundtrip", "C17_uint_roundtrip",
+                                                                  "C17_quote_load_former_witness"]),
                          no_input=True)
         elif self.im_diff:
             ck.log("%d Go≠IM differences (first: %s)" % (self.im_diff, self.first_im))
